@@ -2,7 +2,7 @@
    (LR/Automaton.v) reproduce what lark computed for one grammar?  States are matched by kernel
    item set, never by number.  No proofs here. *)
 From Coq Require Import List Arith Bool ZArith.
-From LV Require Import Cfg.Grammar LR.Driver LR.Automaton.
+From LV Require Import Cfg.Grammar LR.Driver LR.Automaton LR.Digraph.
 Import ListNotations.
 
 Definition kern := list item.
@@ -133,6 +133,53 @@ Section Check.
                                           | KReduce r => Reduce (rule_at A_rules r) end)) (snd kr))
                end) (ac_table c).
 
+  (* ---- tolerant forms for grammars with a reads-cycle (never LR(k)): lark's digraph aliases the
+     Read set object of all members of a reads-SCC (LR/Digraph.v, digraph_twice_aliasing_refuted), so
+     its look-ahead sets may be LARGER than the least solution computed by this model.  Tolerated:
+     lark's LA is a superset per (state, terminal, rule), and table rows agree except for additional
+     Reduce entries on terminals for which the model's row has no entry at all (such an entry makes
+     the parser reduce and then reject before shifting: language, shift preference and accepts() are
+     unchanged).  NOT tolerated: any other difference, in particular the GrammarError flag. ---- *)
+  Definition chk_la_sup (A : lr0) (LA : list (nat * nat * nat)) : bool :=
+    forallb (fun s : kern * list item * list (symbol * nat) * list (nat * list nat) =>
+               let '(k, _, _, las) := s in
+               let q := kid' A k in
+               subset mem_nat (la_terms LA q) (map fst las) &&
+               forallb (fun e : nat * list nat => subset mem_nat (la_rules LA q (fst e)) (snd e)) las)
+            (ac_states c).
+
+  Definition chk_table_tol (ids : list nat) (R : rows) : bool :=
+    forallb (fun kr : nat * list (symbol * kact) =>
+               let q := sid ids (fst kr) in
+               match row_of R q with
+               | None => false
+               | Some row =>
+                   let obs := map (fun e : symbol * kact =>
+                                     (fst e, match snd e with
+                                             | KShift i => Shift (sid ids i)
+                                             | KReduce r => Reduce (rule_at A_rules r) end)) (snd kr) in
+                   subset mem_entry row obs &&
+                   forallb (fun e : symbol * action =>
+                              mem_entry e row ||
+                              match snd e, assoc_sym (fst e) row with
+                              | Reduce _, None => true
+                              | _, _ => false
+                              end) obs
+               end) (ac_table c).
+
+  Definition stages_tol : list bool :=
+    match compute_lalr A_rules (ac_prio c) (ac_roots c) END_T (ac_fuel c) with
+    | AFuel => [false]
+    | ATable A rel LA R =>
+        let ids := case_ids A in
+        [true; chk_states A; chk_closure_trans A ids; chk_nullable; chk_nts ids rel; chk_dr ids rel; chk_reads ids rel;
+         chk_includes ids rel; chk_lookback ids rel; chk_la_sup A LA; negb (ac_error c); chk_table_tol ids R]
+    | AConflict A rel LA _ =>
+        let ids := case_ids A in
+        [true; chk_states A; chk_closure_trans A ids; chk_nullable; chk_nts ids rel; chk_dr ids rel; chk_reads ids rel;
+         chk_includes ids rel; chk_lookback ids rel; chk_la_sup A LA; ac_error c; true]
+    end.
+
   Definition stages : list bool :=
     match compute_lalr A_rules (ac_prio c) (ac_roots c) END_T (ac_fuel c) with
     | AFuel => [false]
@@ -148,11 +195,44 @@ Section Check.
 End Check.
 
 Definition check_acase (c : ACase) : bool := forallb (fun b => b) (stages c).
+Definition check_acase_tol (c : ACase) : bool := forallb (fun b => b) (stages_tol c).
+
+(* ---- grammars with a reads-cycle: the look-aheads are computed by the AS-CODED digraph (LR/Digraph.v)
+   run with lark's own node order and iteration orders (exported by the harness), so that the set
+   aliasing of lark's digraph() is reproduced exactly; states, NULLABLE and the four relations are the
+   model's (stages 0-8 must agree as always); look-ahead sets, GrammarError yes/no and the table are
+   then compared EXACTLY with what the coded algorithm yields. ---- *)
+Definition coded_stages (cc : ACase * list knt * list (list knt) * list (list knt)) : list bool :=
+  let '(c, onts, oreads, oincl) := cc in
+  let rules := ac_rules c in
+  match build_lr0 rules (ac_roots c) (ac_fuel c) with
+  | None => [false]
+  | Some A =>
+      let ids := case_ids c A in
+      let nodes := map (nt_id ids) onts in
+      let idx := map (fun ys : list knt =>
+                        flat_map (fun y => match index_of pair_eqb (nt_id ids y) nodes with
+                                           | Some j => [j] | None => [] end) ys) in
+      match digraph_twice (length nodes) (idx oreads) (idx oincl)
+                          (map (directly_reads rules (ac_roots c) END_T A) nodes) with
+      | None => [false]
+      | Some (_, F2) =>
+          let LAc := la_triples_of (map (lookback rules A) nodes) F2 in
+          let coll := match collisions (ac_prio c) A LAc with [] => false | _ => true end in
+          firstn 9 (stages c) ++
+          [chk_la c A LAc; Bool.eqb coll (ac_error c);
+           if coll then true else chk_table c ids (table_rows rules (ac_prio c) A LAc)]
+      end
+  end.
+Definition check_acase_coded (cc : ACase * list knt * list (list knt) * list (list knt)) : bool :=
+  forallb (fun b => b) (coded_stages cc).
 
 (* which stages fail (0-based), for the harness's diagnostics *)
 Fixpoint failing (i : nat) (l : list bool) : list nat :=
   match l with [] => [] | b :: l' => if b then failing (S i) l' else i :: failing (S i) l' end.
 Definition diag_acase (c : ACase) : list nat := failing 0 (stages c).
+Definition diag_acase_tol (c : ACase) : list nat := failing 0 (stages_tol c).
+Definition diag_acase_coded (cc : ACase * list knt * list (list knt) * list (list knt)) : list nat := failing 0 (coded_stages cc).
 
 (* digraph against its specification on an arbitrary (X, R, G): used to drive lark's
    digraph()/traverse() directly with random relations, including cyclic ones.
